@@ -5,7 +5,7 @@ CFG = dict(
     level_text="Lean 4 theorems, for ALL byte lists: subnet = key[4] mod 128 within [0,128) for keys of >= 5 bytes; short keys -> 'unknown' on all sides; "
                "publish topic = subscribe topic and the validator-side rule accepts exactly it and rejects every other advertised topic; "
                "envelope decode(encode(m,id,sig)) = (m,id,sig) for every payload, 64-bit id and 256-byte signature, short input refused; "
-               "the 128-entry 0/1 subnet vector survives its string encoding. The model is tied to the code on every run by regenerated "
+               "the 128-entry 0/1 subnet vector survives its string encoding; SharedSubnets(a,b,maxLen) is sound (only indices set on both sides), strictly increasing, inside [0,128) for a 128-entry own vector, complete when the limit is 0/negative/not reached, and respects a positive limit; DiffSubnets(a,b) holds exactly the entries of b that a lacks. The model is tied to the code on every run by regenerated "
                "constants/call-site facts and by running model and real functions (incl. the real p2pNetwork.Broadcast/Subscribe and "
                "validateP2PMessage) on the same generated inputs.",
     level_note="Trusted: Lean kernel (axioms propext/Classical.choice/Quot.sound only), the go/ast fact extractor, the harness and its canonicalisation, "
@@ -15,7 +15,7 @@ CFG = dict(
     lean=["Ssv.Props.C18"],
     engines=[dict(harness="topics", driver="m_topics", n_quick=30000, n_thorough=1500000, thorough_seeds=4, n_search=300000)],
     rule="seeded generator over keys (len 0..60, edge bytes), Go strings (hex/non-hex/0x), payloads, ids, signatures (0..600 bytes), "
-         "subnet vectors (len 0..200, values 0/1/other); each op is run on the real function and on the Lean model; a case is "
+         "subnet vectors (len 0..200, values 0/1/other), pairs of vectors with limits {0,1,2,5,20,128,500,-1} for SharedSubnets/DiffSubnets/Active (model-independent soundness/completeness/limit/patch oracles); each op is run on the real function and on the Lean model; a case is "
          "distinct+non-trivial per (op kind, length class, outcome class) key computed by the harness; `vstart` drives the real "
          "validator.Validator.Start (production subscription path: NewValidator + duty runner + real p2pNetwork.Subscribe) and the oracle demands "
          "that the topics it subscribes equal the topics the real Broadcast publishes on for that validator and role",
